@@ -16,7 +16,7 @@ ID = 'C12'
 ALL = [cg.BASIC, cg.COMPOUND, cg.ORTH, cg.FINAL, cg.SH, cg.DH]
 LEVELS = {
     'quick': [
-        {'name': 'L1-N3-M2-1fault', 'N': 3, 'M': 2, 'faults': 1, 'budget_s': 90},
+        {'name': 'L1-N3-M2-1fault', 'N': 3, 'M': 2, 'faults': 1, 'budget_s': 130},
         {'name': 'L2-N4-M1-1structural', 'N': 4, 'M': 1, 'faults': 1, 'fault_set': 'structural', 'positions': 2, 'budget_s': 120},
         {'name': 'L3-N3-M1-2faults', 'N': 3, 'M': 1, 'faults': 2, 'positions': 1, 'budget_s': 90},
     ],
